@@ -176,7 +176,7 @@ def run(ctx, prog, res):
         ok = "minute" in fs
     else:
         ok = False
-    r4.check(ok, {"fn": mm.id, "formula": "minute + 60 * hour"}, "C19.R4:mins_from_midnight", "mins_from_midnight is not minute + 60*hour", lib.where_of(mm))
+    pending4 = [("mins_from_midnight", ok, {"fn": mm.id, "formula": "minute + 60 * hour"}, "C19.R4:mins_from_midnight", "mins_from_midnight is not minute + 60*hour", lib.where_of(mm))]
     fm = prog.require_fn(ET + "::from_mins_from_midnight")
     newc = [t for _, t in fm.calls() if flow.call_name(t) == new.id]
     ok = False
@@ -186,7 +186,7 @@ def run(ctx, prog, res):
         def consts(op):
             return [x.get("int") for n in flow.deep_origin_calls(fm, op) if n["k"] == "assign" and n["rv"]["k"] == "bin" and n["rv"]["op"] in ("Div", "Rem") for x in (n["rv"]["b"],)]
         ok = arith(newc[0]["args"][0]) == ["Div"] and arith(newc[0]["args"][1]) == ["Rem"] and consts(newc[0]["args"][0]) == [60] and consts(newc[0]["args"][1]) == [60]
-    r4.check(ok, {"fn": fm.id, "formula": "new(minute / 60, minute % 60)"}, "C19.R4:from_mins", "from_mins_from_midnight is not new(m / 60, m % 60)", lib.where_of(fm))
+    pending4.append(("from_mins_from_midnight", ok, {"fn": fm.id, "formula": "new(minute / 60, minute % 60)"}, "C19.R4:from_mins", "from_mins_from_midnight is not new(m / 60, m % 60)", lib.where_of(fm)))
     ah = prog.require_fn(ET + "::add_hours")
     newc = [t for _, t in ah.calls() if flow.call_name(t) == new.id]
     ok = False
@@ -198,8 +198,7 @@ def run(ctx, prog, res):
             fa = [n for _, _, n in flow.origin_fields(ah, hsrc[0]["rv"]["a"]) + flow.origin_fields(ah, hsrc[0]["rv"]["b"])]
             ps = flow.root_params(ah, hsrc[0]["rv"]["a"]) | flow.root_params(ah, hsrc[0]["rv"]["b"])
             ok = fa == ["hour"] and 2 in ps
-    r4.check(ok, {"fn": ah.id, "formula": "new(hour + hours, minute)"}, "C19.R4:add_hours", "add_hours is not new(hour + hours (checked narrowing), minute)", lib.where_of(ah))
-    r4.floor(4)
+    pending4.append(("add_hours", ok, {"fn": ah.id, "formula": "new(hour + hours, minute)"}, "C19.R4:add_hours", "add_hours is not new(hour + hours (checked narrowing), minute)", lib.where_of(ah)))
 
     # W --------------------------------------------------------------------------------------
     witness.run_positive(ctx, prog, res, "C19.W1", "compile-time witness (rustc const evaluation, labelled): for all u8 x u8, ExtendedTime::new(h, m).is_some() == (m < 60 && 60h+m <= 2880)", group="c19")
@@ -250,5 +249,17 @@ def run(ctx, prog, res):
             for nm in ("mins_from_midnight", "from_mins_from_midnight", "add_minutes", "add_hours"):
                 r7.check(nm not in bad, {"fn": nm, "times": len(times), "evaluations": n_ev}, "C19.R7:%s" % nm, "ExtendedTime::%s: %s" % (nm, bad.get(nm, "")), lib.where_of(fns[nm]))
     r7.floor(4)
+
+    # R4's three formula obligations are shape comparisons: where the shape is not the expected one but R7 decided
+    # the same function by value on the whole domain, the formula holds (written differently)
+    by_value = bad is not None if "bad" in dir() else False
+    for nm, ok4, inst, key4, msg4, where4 in pending4:
+        if ok4:
+            r4.ok(inst)
+        elif by_value and nm not in (bad or {}):
+            r4.ok(dict(inst, formula_shape="not the expected one; decided by value (C19.R7)"))
+        else:
+            r4.fail(key4, msg4, where4)
+    r4.floor(4)
 
     witness.run_doctests(ctx, prog, res, "C19.W2", "the struct literal and the fields are not accessible outside the crate; twins compile", "c19", floor=2)
